@@ -86,7 +86,10 @@ pub fn run_input(ctx: &mut Context, code: &str) -> StepResult {
             }
             Err(e) => {
                 let (o, k) = classify(&e);
-                (o, k, e.to_string(), None, vec![])
+                // rendering the message is a separate step: a panic there does not change the outcome class
+                let msg = std::panic::catch_unwind(std::panic::AssertUnwindSafe(|| e.to_string()))
+                    .unwrap_or_else(|_| "<PANIC while rendering the error message>".to_string());
+                (o, k, msg, None, vec![])
             }
         }
     }));
